@@ -15,7 +15,7 @@ from ..ordtype import evaluate_all, Ordering
 from ..poly import Poly, le, lt, eq
 from ..pathstate import Paths, Client
 from ..terms import Terms, plain, show, subterms, mk_cmp, is_none, stores, \
-    method_calls, owner_views, SITES
+    method_calls, owner_views, SITES, alternatives
 from ..util import calls_in, qual, formals, has_fact, raises_of, raise_name, \
     returns_of
 
@@ -534,6 +534,9 @@ def r2_r3(program, rep):
                 [_kn(x) for x in args] == [("comp", Epl, 0)] and \
                 not T.all_facts(n):
             grouped = True
+    if not grouped:
+        raise AnalysisError("allocate: how vertices are grouped by chip was "
+                            "not found in the form analysed")
     rep.check(grouped, "C05-R3", inst, "the vertices allocated together are "
               "exactly those placed on the same chip",
               construct="grouping by placement", node=fn)
@@ -550,9 +553,24 @@ def r2_r3(program, rep):
         not S[3]
     PTR = AL = None
     if ok_al:
-        p_, a_ = _entry(S[2][0]), _entry(S[2][1])
+        ptr_arg = S[2][0]
+        if ptr_arg[0] == "mu":
+            # the pointer is kept in a local while a free range is searched
+            # for: it starts as pointer[resource] and otherwise only takes
+            # the end of a reservation
+            alts = [_kn(x) for x in alternatives(ptr_arg)]
+            start_ = [x for x in alts if _entry(x) is not None and
+                      x[0] == "item"]
+            rest = [x for x in alts if x not in start_ and x != ("rec",)]
+            if len(start_) != 1 or not all(
+                    x[0] == "attr" and x[2] == "stop" and
+                    x[1][0] == "elem" for x in rest):
+                raise AnalysisError("allocate: the search pointer")
+            ptr_arg = start_[0]
+            m.local_ptr_stops = [x[1][1] for x in rest]
+        p_, a_ = _entry(ptr_arg), _entry(S[2][1])
         ok_al = p_ is not None and a_ is not None and p_[1] == RES and \
-            a_[1] == RES and S[2][0][0] == "item"
+            a_[1] == RES and ptr_arg[0] == "item"
         if ok_al:
             PTR, AL = p_[0], a_[0]
     rep.check(ok_al, "C05-R2", inst, "start = align(pointer[resource], "
@@ -569,6 +587,9 @@ def r2_r3(program, rep):
         "call", ("global", "defaultdict"), (("lambda", 0, ("const", 1)),),
         ())
     al_st = [x for x in m.stores if x[2] == AL]
+    if not okA or len(al_st) != 1:
+        raise AnalysisError("allocate: the alignment table was not found "
+                            "in the form analysed")
     okA = okA and len(al_st) == 1 and \
         al_st[0][3] == ("attr", Ec, "resource") and \
         al_st[0][4] == ("attr", Ec, "alignment") and \
@@ -578,6 +599,9 @@ def r2_r3(program, rep):
     rep.check(okA, "C05-R2", inst, "alignment[resource] is the alignment of "
               "the AlignResourceConstraint of that resource (1 if none)",
               construct="alignment table", node=fn)
+    if m.G is None or m.L is None:
+        raise AnalysisError("allocate: the tables the reservations are "
+                            "filed in were not found in the form analysed")
     rep.check(m.G is not None, "C05-R2", inst, "reservations without a "
               "location are filed by resource in the global table",
               construct="global reservations filed", node=fn)
@@ -597,6 +621,10 @@ def r2_r3(program, rep):
         n, lambda x: x in fills, targets=heads + [cfg.exit]) for n in isres),
         "C05-R2", inst, "every ReserveResourceConstraint is filed in one of "
         "the two tables", construct="reservations all filed", node=fn)
+    for src_ in getattr(m, "local_ptr_stops", []):
+        if m.sources(src_) is None:
+            raise AnalysisError("allocate: the search pointer is moved to "
+                                "something that is not a reservation's end")
     # path-sensitive exploration
     mon = _Monitor(m)
     paths = Paths(T, mon)
